@@ -230,6 +230,10 @@ def run(chk, repo):
     chk.clauses.append('C02.k (shared R-TRUTHY) no numeric parameter (reading frame, index, offset: 0 is a value) is tested by truthiness instead of `is None`')
     truthy_numeric(chk, repo, 'C02.k', ['svgraph', 'aa.AminoAcidSeqRecord', 'dna'])
     series_lockstep(chk, repo, 'C02.l')
+    from rules.shared import copy_scalar_fields
+    chk.clauses.append('C02.m PVGNode.copy() hands every plain field (truncated, npop_collapsed, cpop_collapsed, cleavage, ...) on unchanged: merged nodes built from copies keep the flags that forbid peptides to start / end at a pop-collapsed or truncated terminus')
+    copy_scalar_fields(chk, repo, 'C02.m', ['svgraph.PVGNode:PVGNode'], floor=10)
+    fusion_end_flags(chk, repo, 'C02.n')
 
 
 def retry_effects(chk, repo, rid):
@@ -409,3 +413,32 @@ def series_lockstep(chk, repo, rid):
     chk.ob(rid, f"{n} reads of per-node coordinates use the series element", repo.loc(f, lp), n >= 2 and not bad,
            '; '.join(bad[:3]) + ': positions relative to a node sequence are taken from a different object than the one whose sequence is joined (for the first node the series '
            'holds a copy trimmed to the ORF start: its coordinates are shifted against the graph node)', key=f.qual + '::same-object', fn=f.qual)
+
+
+
+def fusion_end_flags(chk, repo, rid):
+    """R-THREAD (value): the graph of a fusion transcript starts in the donor and ends in the accepter (create_variant_graph appends
+    the accepter's sequence up to its 3' end), so the flags of the two ends come from the two transcripts: cds_start_nf /
+    has_known_orf from the transcript the fusion record lies on (variant.location.seqname), mrna_end_nf from the accepter
+    (variant.accepter_transcript_id).  Decided on the keyword values of the ThreeFrameTVG built by call_peptide_fusion, locals
+    expanded to their definitions."""
+    from sa import sem
+    chk.rule(rid, "R-THREAD: the fusion graph takes its 5' flags from the donor transcript and its 3' flag from the accepter transcript", 3)
+    chk.clauses.append("C02.n the fusion graph's mrna_end_nf is the accepter transcript's (its 3' end is the accepter's); cds_start_nf / has_known_orf are the donor transcript's")
+    f = repo.func('cli.call_variant_peptide:call_peptide_fusion')
+    chk.uses(f)
+    ctor = [c for c in ast.walk(f.node) if isinstance(c, ast.Call) and call_name(c) == 'ThreeFrameTVG']
+    if len(ctor) != 1:
+        chk.undecided(rid, 'fusion graph', f.where, f"{len(ctor)} ThreeFrameTVG(...) constructions found in call_peptide_fusion", key=f.qual + '::tvg', fn=f.qual)
+        return
+    st = repo.enclosing_stmt(ctor[0])
+    ch = sem.block_chains(f.node)
+    DON, ACC = 'variant.location.seqname', 'variant.accepter_transcript_id'
+    want = {'cds_start_nf': (DON, ('is_cds_start_nf()',)), 'has_known_orf': (DON, ('is_protein_coding',)), 'mrna_end_nf': (ACC, ('is_mrna_end_nf()',))}
+    for kw, (src, tails) in want.items():
+        v = kwarg(ctor[0], kw)
+        e = unparse(sem.expand_names(f.node, st, v, chains=ch, depth=4)) if v is not None else None
+        ok = e is not None and any(e == f"ref.anno.transcripts[{src}].{t}" for t in tails)
+        chk.ob(rid, f"{kw} is read from ref.anno.transcripts[{src}]", repo.loc(f, ctor[0]), ok,
+               f"{kw} of the fusion graph is `{e}`: not the {'accepter' if src == ACC else 'donor'} transcript's flag "
+               "(a fusion into an mRNA_end_NF accepter keeps / loses its open-ended last peptide wrongly)", key=f"{f.qual}::{kw}", fn=f.qual)
